@@ -4,6 +4,7 @@
   `rfl` closes the goal whenever the translation unfolds to the model (the normal case); the fall-backs make the
   proofs survive behaviour-preserving rewrites of the source (reordered xors, …).
 -/
+import Lean
 import Rngs.Model.Xoshiro
 import Rngs.Model.XorShift
 import Rngs.Model.Jitter
@@ -13,6 +14,22 @@ import Rngs.Lib.XorLinear
 import Rngs.Lib.ExtTieBlock
 import Rngs.Lib.ExtTieShapes
 import Rngs.Lib.ExtTieRc
+open Lean Elab Tactic Meta in
+/-- `bounded n => tac`: run `tac` with a budget of `n` thousand heartbeats of its own; running out of it (or any other failure)
+    is an ordinary failure, so that `first | bounded 100 => rfl | …` can go on to a normalising script instead of ending the
+    whole proof with a timeout.  (Elaboration-time control only: whatever proof comes out is checked by the kernel as always.) -/
+elab "bounded " n:num " => " t:tacticSeq : tactic => do
+  let budget := n.getNat * 1000
+  let s ← saveState
+  let ok ← tryCatchRuntimeEx
+      (do withTheReader Core.Context (fun ctx => { ctx with maxHeartbeats := budget * 1000 }) <|
+            withCurrHeartbeats (evalTactic t)
+          pure true)
+      (fun _ => pure false)
+  unless ok do
+    s.restore
+    throwError "bounded: the tactic failed or ran out of its budget"
+
 namespace Rngs
 
 /-- step functions (`next_u32`, `next_u64`): definitional unfolding first -/
